@@ -2,8 +2,12 @@ package harness
 
 import (
 	"fmt"
+	"io"
 	"math/rand"
 	"net/http"
+	"strings"
+	"sync"
+	"syscall"
 	"testing"
 	"testing/synctest"
 	"time"
@@ -262,6 +266,10 @@ func (sc *Script) doTime() {
 		d = sc.cfg.PI / 2
 	default:
 		d = sc.cfg.PI + sc.cfg.PT/2
+	}
+	if d >= sc.cfg.PI/2 && sc.r.Intn(3) > 0 {
+		sc.sleepAlive(d) // mostly keep the sessions alive across long pauses; sometimes let them starve
+		return
 	}
 	sc.w.g.Sleep(d)
 }
@@ -623,6 +631,423 @@ func replayFamily(behs [][]map[string]any) []Scenario {
 	var out []Scenario
 	for i, b := range behs {
 		out = append(out, replayScenario(fmt.Sprintf("beh%d", i), b))
+	}
+	return out
+}
+
+// ---------------------------------------------------------------- hostile inputs (C09) and size limits (C10)
+
+var hostileClasses = []string{"wrongdir", "early-heartbeat", "unknown-type", "empty-packet", "v3-trunc-len", "v3-inflated-len", "v3-neg-len",
+	"v3bin-garbage", "bad-utf8", "bad-base64", "octet-v4", "odd-method", "huge-query", "jsonp-garbage", "ws-binary-on-b64", "ws-empty",
+	"ws-control", "ws-after-close", "post-after-close", "eio-mismatch-upgrade", "garbage-body", "double-colon", "many-packets"}
+
+func cpuNow() time.Duration {
+	var ru syscall.Rusage
+	syscall.Getrusage(syscall.RUSAGE_SELF, &ru)
+	return time.Duration(ru.Utime.Nano() + ru.Stime.Nano())
+}
+
+// hostile performs one hostile input of the given class against c; returns bytes sent.
+func (sc *Script) hostile(c *cliSess, class string) int {
+	w, s := sc.w, c.S
+	sid := s.Sid
+	w.Cause(sid, "error")
+	w.Cause(sid, "parse")
+	w.Cause(sid, "peer")
+	raw := func(body []byte, ct string) int {
+		if c.Kind == "websocket" && c.ws != nil {
+			c.ws.SendRaw(1, body)
+			return len(body)
+		}
+		w.StartReq("post", s, ReqOpt{Method: "POST", Body: body, CType: ct})
+		return len(body)
+	}
+	switch class {
+	case "wrongdir":
+		ty := "ping"
+		if s.Proto == 3 {
+			ty = "pong"
+		}
+		if c.Kind == "websocket" && c.ws != nil {
+			c.ws.SendPkt(Pkt{Type: ty})
+		} else {
+			w.Post(s, []Pkt{{Type: ty}}, ReqOpt{})
+		}
+		return 2
+	case "early-heartbeat":
+		ty := "pong"
+		if s.Proto == 3 {
+			ty = "ping"
+		}
+		if c.Kind == "websocket" && c.ws != nil {
+			c.ws.SendPkt(Pkt{Type: ty})
+		} else {
+			w.Post(s, []Pkt{{Type: ty}}, ReqOpt{})
+		}
+		return 2
+	case "unknown-type":
+		return raw([]byte("9zzz"), "")
+	case "empty-packet":
+		return raw([]byte(""), "")
+	case "v3-trunc-len":
+		return raw([]byte("10:4ab"), "")
+	case "v3-inflated-len":
+		return raw([]byte("999999:4ab"), "")
+	case "v3-neg-len":
+		return raw([]byte("-1:4ab:"), "")
+	case "v3bin-garbage":
+		if c.Kind == "websocket" {
+			c.ws.SendRaw(2, []byte{9, 9, 9, 255, 1, 2})
+			return 6
+		}
+		// moderate inflated binary length (the parser walks it unit by unit): bounded so that the step completes
+		return raw([]byte{0, 9, 9, 9, 9, 255, 52, 97}, "application/octet-stream")
+	case "bad-utf8":
+		return raw([]byte{'4', 0xff, 0xfe, 0xc0, 0x80, 'x'}, "")
+	case "bad-base64":
+		return raw([]byte("b4###not-base64"), "")
+	case "octet-v4":
+		if c.Kind == "polling" {
+			r := w.StartReq("post", s, ReqOpt{Method: "POST", Body: []byte{4, 1, 2}, CType: "application/octet-stream"})
+			sc.settle()
+			if r.Status == 0 { // never answered: the client gives up
+				w.Abort(r)
+			}
+			return 3
+		}
+	case "odd-method":
+		w.StartReq("other", s, ReqOpt{Method: []string{"PUT", "DELETE", "HEAD", "PATCH"}[sc.r.Intn(4)]})
+		return 0
+	case "huge-query":
+		w.StartReq("poll", s, ReqOpt{Query: "x=" + strings.Repeat("A", 70000)})
+		return 70000
+	case "jsonp-garbage":
+		if c.Kind == "polling" {
+			w.StartReq("post", s, ReqOpt{Method: "POST", Body: []byte("d=%zz%"), CType: "application/x-www-form-urlencoded"})
+			return 6
+		}
+	case "ws-binary-on-b64":
+		if c.ws != nil {
+			c.ws.SendRaw(2, []byte{4, 1, 2, 3})
+			return 4
+		}
+	case "ws-empty":
+		if c.ws != nil {
+			c.ws.SendRaw(1, nil)
+			c.ws.SendRaw(2, nil)
+			return 0
+		}
+	case "ws-control":
+		if c.ws != nil && c.ws.conn != nil {
+			c.ws.wmu.Lock()
+			c.ws.conn.WriteControl(9, []byte("x"), time.Time{})
+			c.ws.conn.WriteControl(10, []byte("y"), time.Time{})
+			c.ws.wmu.Unlock()
+			return 2
+		}
+	case "ws-after-close":
+		if c.ws != nil {
+			c.ws.CloseFrame()
+			c.ws.SendPkt(sc.w.ClientMsg(4, false, 0))
+			c.dead = true
+			return 8
+		}
+	case "post-after-close":
+		if c.Kind == "polling" {
+			w.Post(s, []Pkt{{Type: "close"}}, ReqOpt{})
+			sc.settle()
+			w.Post(s, []Pkt{w.ClientMsg(4, false, 0)}, ReqOpt{})
+			w.StartReq("poll", s, ReqOpt{})
+			c.dead = true
+			return 8
+		}
+	case "eio-mismatch-upgrade":
+		if c.Kind == "polling" {
+			// candidate opened with the OTHER revision than the session's, then it follows the upgrade protocol and sends heartbeats
+			other := &Sess{Proto: 7 - s.Proto, Sid: s.Sid}
+			cand := w.DialWS(other, "", nil, nil)
+			sc.settle()
+			if !cand.closed {
+				cand.SendPkt(Pkt{Type: "ping", Data: []byte("probe")})
+				sc.settle()
+				cand.SendPkt(Pkt{Type: "upgrade"})
+				sc.settle()
+				cand.SendPkt(Pkt{Type: "ping"})
+				cand.SendPkt(Pkt{Type: "pong"})
+			}
+			c.dead = true
+			return 12
+		}
+	case "garbage-body":
+		b := make([]byte, 64)
+		sc.r.Read(b)
+		return raw(b, "")
+	case "double-colon":
+		return raw([]byte("2:::4a"), "")
+	case "many-packets":
+		var ps []Pkt
+		for i := 0; i < 200; i++ {
+			ps = append(ps, Pkt{Type: "noop"})
+		}
+		if c.Kind == "polling" {
+			w.Post(s, ps, ReqOpt{})
+		}
+		return 400
+	}
+	return 0
+}
+
+// sleepAlive advances time in slices, keeping the conformant clients alive (poll outstanding, pings answered).
+func (sc *Script) sleepAlive(d time.Duration) {
+	slice := sc.cfg.PT / 2
+	if slice <= 0 {
+		slice = time.Second
+	}
+	for d > 0 {
+		for _, c := range sc.live() {
+			if c.autoPong && c.Kind == "polling" && c.poll == nil {
+				sc.doPoll(c)
+			}
+			if c.autoPong && c.S.Proto == 3 { // revision 3: the client is the one that pings
+				if c.Kind == "polling" && len(c.posts) == 0 {
+					c.posts = append(c.posts, sc.w.Post(c.S, []Pkt{{Type: "ping"}}, ReqOpt{}))
+				} else if c.ws != nil && !c.ws.closed {
+					c.ws.SendPkt(Pkt{Type: "ping"})
+				}
+			}
+		}
+		sc.settle()
+		step := min(slice, d)
+		sc.w.g.Sleep(step)
+		d -= step
+		sc.settle()
+	}
+}
+
+// canaryRoundTrip: a second session exchanges one message each way and must stay open.
+func (sc *Script) canaryRoundTrip(can *cliSess) {
+	if can == nil || can.S.Sid == "" {
+		return
+	}
+	sid := can.S.Sid
+	sc.w.Send(sid, SendOpt{Size: 9})
+	if can.Kind == "polling" {
+		if can.poll == nil {
+			sc.doPoll(can)
+		}
+		sc.settle()
+		can.posts = append(can.posts, sc.w.Post(can.S, []Pkt{sc.w.ClientMsg(7, false, 1)}, ReqOpt{}))
+	} else if can.ws != nil {
+		can.ws.SendPkt(sc.w.ClientMsg(7, false, 1))
+	}
+	sc.settle()
+	if can.Kind == "polling" && can.poll == nil {
+		sc.doPoll(can)
+		sc.settle()
+	}
+	sc.w.Expect(sid, "open")
+	sc.w.Expect(sid, "drained")
+	sc.w.Expect(sid, "delivered")
+}
+
+func hostileScenario(name string, seed int64) Scenario {
+	return Scenario{Name: name, Run: func(t *testing.T, rec *Rec, g *Gates) {
+		r := rand.New(rand.NewSource(seed))
+		cfg := EngCfg{PI: 25 * time.Second, PT: 20 * time.Second, EIO3: true}
+		w := newEngWorld(t, rec, g, cfg)
+		sc := &Script{w: w, r: r, cfg: cfg, W: map[string]int{"ws-direct": 40, "jsonp": 15, "max-sessions": 9}}
+		// the canary
+		sc.newSession()
+		sc.settle()
+		can := sc.ss[0]
+		sc.canaryRoundTrip(can)
+		for i := 0; i < 4+r.Intn(5); i++ {
+			sc.newSession()
+			sc.settle()
+			vic := sc.ss[len(sc.ss)-1]
+			if vic.S.Sid == "" {
+				continue
+			}
+			// phase: fresh | after some traffic | while upgrading | after the first ping
+			switch r.Intn(4) {
+			case 1:
+				sc.doSend(vic)
+				sc.doPoll(vic)
+				sc.settle()
+			case 2:
+				sc.doCandOpen(vic)
+				sc.settle()
+			case 3:
+				vic.autoPong = true
+				sc.doPoll(vic)
+				sc.sleepAlive(cfg.PI + time.Second)
+			}
+			class := hostileClasses[r.Intn(len(hostileClasses))]
+			cpu0 := cpuNow()
+			rec.Log("hostile", "sid", vic.S.Sid, "class", class, "proto", vic.S.Proto, "kind", vic.Kind)
+			n := sc.hostile(vic, class)
+			sc.settle()
+			// a data request the server neither answers nor accepts (v4 + application/octet-stream is refused as
+			// "invalid content" without a response, as upstream does): the client gives up
+			w.mu.Lock()
+			var hang []*Req
+			for _, rq := range w.reqs {
+				if rq.Kind == "post" && rq.Sess == vic.S && rq.Status == 0 && !rq.returned && !rq.aborted {
+					hang = append(hang, rq)
+				}
+			}
+			w.mu.Unlock()
+			for _, rq := range hang {
+				w.Abort(rq)
+			}
+			sc.settle()
+			rec.Log("hostile.done", "sid", vic.S.Sid, "class", class, "bytes", n, "cpu_ms", int64((cpuNow()-cpu0)/time.Millisecond))
+			w.Snapshot()
+			sc.canaryRoundTrip(can)
+		}
+		sc.Drain()
+		w.Finish()
+	}}
+}
+
+// the one input known to make the parser spin (see known-findings.json): kept in a scenario of its own
+func spinScenario(name string) Scenario {
+	return Scenario{Name: name, Run: func(t *testing.T, rec *Rec, g *Gates) {
+		cfg := EngCfg{EIO3: true}
+		w := newEngWorld(t, rec, g, cfg)
+		s, _ := w.Handshake(3, false, false, ReqOpt{})
+		if s.Sid != "" {
+			w.Cause(s.Sid, "parse")
+			w.Cause(s.Sid, "error")
+			rec.Log("hostile", "sid", s.Sid, "class", "v3bin-length-spin", "proto", 3, "kind", "polling")
+			cpu0 := cpuNow()
+			body := append([]byte{0, 9, 9, 9, 9, 9, 9, 9, 9, 9, 9, 255}, []byte("4abcdefg")...)
+			w.StartReq("post", s, ReqOpt{Method: "POST", Body: body, CType: "application/octet-stream"})
+			synctest.Wait()
+			rec.Log("hostile.done", "sid", s.Sid, "class", "v3bin-length-spin", "bytes", len(body), "cpu_ms", int64((cpuNow()-cpu0)/time.Millisecond))
+		}
+		w.Finish()
+	}}
+}
+
+func hostileFamily(seed int64, n int) []Scenario {
+	var out []Scenario
+	out = append(out, spinScenario(fmt.Sprintf("host%d_spin", seed)))
+	for i := 0; i < n; i++ {
+		out = append(out, hostileScenario(fmt.Sprintf("host%d_%d", seed, i), seed*1000033+int64(i)))
+	}
+	return out
+}
+
+// ---------------------------------------------------------------- family "limit" (C10)
+
+// countingBody streams up to total bytes of a valid v4 message payload and counts what the server consumed.
+type countingBody struct {
+	total    int
+	pos      int
+	mu       sync.Mutex
+	consumed int
+	head     []byte
+}
+
+func (b *countingBody) Read(p []byte) (int, error) {
+	b.mu.Lock()
+	defer b.mu.Unlock()
+	if b.pos >= b.total {
+		return 0, io.EOF
+	}
+	n := min(len(p), b.total-b.pos)
+	for i := 0; i < n; i++ {
+		if b.pos+i < len(b.head) {
+			p[i] = b.head[b.pos+i]
+		} else {
+			p[i] = 'x'
+		}
+	}
+	b.pos += n
+	b.consumed += n
+	return n, nil
+}
+func (b *countingBody) Close() error { return nil }
+
+func limitScenario(name string, seed int64) Scenario {
+	return Scenario{Name: name, Run: func(t *testing.T, rec *Rec, g *Gates) {
+		r := rand.New(rand.NewSource(seed))
+		limit := []int64{100, 1000, 5000}[r.Intn(3)]
+		cfg := EngCfg{MaxBuf: limit, EIO3: true}
+		w := newEngWorld(t, rec, g, cfg)
+		sc := &Script{w: w, r: r, cfg: EngCfg{PI: 25 * time.Second, PT: 20 * time.Second}, W: map[string]int{"ws-direct": 0, "max-sessions": 9}}
+		sc.newSession() // canary (polling)
+		sc.settle()
+		can := sc.ss[0]
+		sizes := []int{int(limit) - 1, int(limit), int(limit) + 1, int(limit) * 10, int(limit)*300 + 7}
+		for i := 0; i < 6; i++ {
+			size := sizes[r.Intn(len(sizes))]
+			switch r.Intn(3) {
+			case 0: // polling data request, declared or unknown length
+				s, _ := w.Handshake(4, false, false, ReqOpt{})
+				if s.Sid == "" {
+					continue
+				}
+				declared := r.Intn(2) == 0
+				multi := r.Intn(3) == 0
+				head := []byte("4zzzz") // an unnumbered message (the monitor only bounds its size)
+				if multi {              // several small packets in front, then the big one
+					head = append([]byte("4ab\x1e4cd\x1e"), head...)
+				}
+				if size < len(head) {
+					size = len(head)
+				}
+				body := &countingBody{total: size, head: head}
+				w.Cause(s.Sid, "error")
+				rec.Log("c10.post", "sid", s.Sid, "size", size, "declared", declared, "limit", limit, "multi", multi, "rid", w.reqN+1)
+				ro := ReqOpt{Method: "POST", BodyRdr: body, NoCL: !declared, DeclLen: int64(size)}
+				rq := w.StartReq("post", s, ro)
+				sc.settle()
+				rec.Log("c10.body", "rid", rq.ID, "consumed", body.consumed, "size", size, "limit", limit, "status", rq.Status)
+				if rq.Status == 0 {
+					w.Abort(rq)
+				}
+			default: // websocket frame, on a direct session or on an upgraded one
+				var c *WSClient
+				s := &Sess{Proto: 4}
+				upgraded := r.Intn(2) == 0
+				if upgraded {
+					ps, _ := w.Handshake(4, false, false, ReqOpt{})
+					if ps.Sid == "" {
+						continue
+					}
+					s = ps
+					c = w.DialWS(s, "", nil, nil)
+					sc.settle()
+					c.SendPkt(Pkt{Type: "ping", Data: []byte("probe")})
+					sc.settle()
+					c.SendPkt(Pkt{Type: "upgrade"})
+					sc.settle()
+				} else {
+					c = w.DialWS(s, "", nil, nil)
+					sc.settle()
+				}
+				if c.closed || s.Sid == "" {
+					continue
+				}
+				w.Cause(s.Sid, "error")
+				m := w.ClientMsg(size-1, r.Intn(2) == 0, 0)
+				rec.Log("c10.frame", "sid", s.Sid, "size", len(m.Data)+1, "limit", limit, "upgraded", upgraded)
+				c.SendPkt(m)
+				sc.settle()
+			}
+			sc.canaryRoundTrip(can)
+		}
+		sc.Drain()
+		w.Finish()
+	}}
+}
+
+func limitFamily(seed int64, n int) []Scenario {
+	var out []Scenario
+	for i := 0; i < n; i++ {
+		out = append(out, limitScenario(fmt.Sprintf("limit%d_%d", seed, i), seed*1000037+int64(i)))
 	}
 	return out
 }
